@@ -173,6 +173,9 @@ func execWindow(c Case) [][][]string {
 	type gapAdd struct {
 		k   int
 		row map[string]interface{}
+		rel string // "@off": the row's timestamp is (start of the window being delivered) + off
+		id  string
+		key string
 	}
 	var gaps []gapAdd
 	emitted := 0
@@ -189,8 +192,15 @@ func execWindow(c Case) [][][]string {
 		inCallback = true
 		for _, g := range gaps {
 			if g.k == k {
+				row := g.row
+				if g.rel != "" {
+					line := cur[len(cur)-1]
+					start, _ := strconv.ParseInt(line[1], 10, 64)
+					off, _ := strconv.ParseInt(g.rel[1:], 10, 64)
+					row = rowOf(g.id, itoa(start+off), g.key)
+				}
 				inAdd = true
-				w.Add(g.row)
+				w.Add(row)
 				inAdd = false
 			}
 		}
@@ -240,7 +250,11 @@ func execWindow(c Case) [][][]string {
 					if len(p) > 3 {
 						key = unhx(p[3])
 					}
-					gaps = append(gaps, gapAdd{k, rowOf(p[1], p[2], key)})
+					g := gapAdd{k: k, row: rowOf(p[1], p[2], key), id: p[1], key: key}
+					if strings.HasPrefix(p[2], "@") && kind != "session" {
+						g.rel = p[2]
+					}
+					gaps = append(gaps, g)
 				}
 			}
 			if !deliverOnce() {
@@ -250,13 +264,19 @@ func execWindow(c Case) [][][]string {
 			for deliverOnce() {
 			}
 		case "tick":
-			window.VerifWatermarkTick(w)
+			if cfgInt(c, "idle", 0) > 1 { // IDLETIMEOUT configured and ticks placed explicitly: this one finds the source busy
+				window.VerifWatermarkTickIdle(w, false)
+			} else {
+				window.VerifWatermarkTick(w)
+			}
+		case "itick":
+			window.VerifWatermarkTickIdle(w, true)
 		case "pttick":
 			for _, g := range op[1:] {
 				p := strings.Split(g, ":")
 				if len(p) >= 3 {
 					k, _ := strconv.Atoi(p[0])
-					gaps = append(gaps, gapAdd{k, rowOf(p[1], p[2], "")})
+					gaps = append(gaps, gapAdd{k: k, row: rowOf(p[1], p[2], "")})
 				}
 			}
 			w.Trigger()
